@@ -1,5 +1,6 @@
 import AnySyncModel.Core.Wire
 import AnySyncModel.Driver.App
+import AnySyncModel.Driver.Acl
 /-!
 `modeld <area>`: reads one operation per line on stdin, prints exactly one line per operation.
 Stateless areas expose `step : String → String`; stateful areas expose
@@ -28,4 +29,5 @@ def main (args : List String) : IO UInt32 := do
   let stdout ← IO.getStdout
   match args with
   | ["app"] => loopPure stdin stdout Driver.App.step; return 0
+  | ["acl"] => loopState stdin stdout Driver.Acl.step Driver.Acl.init; return 0
   | _ => IO.eprintln s!"modeld: unknown area {args}"; return 2
